@@ -28,19 +28,40 @@ type Mode struct {
 type Config struct {
 	Prop      string
 	Modes     []Mode
-	Random    int  // number of random programs
-	Families  bool // include the exhaustive switch / loop families
+	Random    int  // number of random programs of the version 1 fragment
+	Random2   int  // number of random programs drawing from the version 2 forms
+	Families  bool // include the exhaustive families
 	NodeCheck bool // also require `node --check` to accept the emitted file
+}
+
+// Family is a named list of programs.
+type Family struct {
+	Name  string
+	Progs []*Program
+}
+
+// Families returns the exhaustive program families; the quick tier takes a
+// seeded sample of the larger ones.
+func Families(thorough bool, rng *rand.Rand) []Family {
+	fs := []Family{
+		{"switch-family", SwitchFamily()},
+		{"loop-family", LoopFamily()},
+		{"cond-family", CondFamily()},
+		{"order-family", OrderFamily()},
+	}
+	fs = append(fs, Families2(thorough, rng)...)
+	return fs
 }
 
 const ni = 4
 
 type pred struct {
-	P    int     `json:"p"`
-	IV   []int   `json:"iv"`
-	Obs  [][]any `json:"obs"`
-	Used int     `json:"used"`
-	OK   bool    `json:"ok"`
+	P     int     `json:"p"`
+	IV    []int   `json:"iv"`
+	Obs   [][]any `json:"obs"`
+	Used  int     `json:"used"`
+	OK    bool    `json:"ok"`
+	Indep bool    `json:"indep"`
 }
 
 type caseT struct {
@@ -104,6 +125,89 @@ func trb(k int, b bool) bool {
 	}
 	return b
 }
+
+// contents of composite values, one line per element
+func dumpS(k int, s []int) {
+	println("d", k, len(s))
+	for i := 0; i < len(s); i++ {
+		println("d", k, i, s[i])
+	}
+}
+
+func dumpA(k int, a [3]int) {
+	println("d", k, 3)
+	for i := 0; i < 3; i++ {
+		println("d", k, i, a[i])
+	}
+}
+
+func dumpStr(k int, s string) {
+	println("d", k, len(s))
+	for i := 0; i < len(s); i++ {
+		println("d", k, i, s[i])
+	}
+}
+
+// maps are printed in ascending key order
+func dumpM(k int, m map[int]int) {
+	println("d", k, len(m))
+	last := -(1 << 30)
+	for n := 0; n < len(m); n++ {
+		best := 1 << 30
+		for key := range m {
+			if key > last && key < best {
+				best = key
+			}
+		}
+		println("d", k, best, m[best])
+		last = best
+	}
+}
+
+func contains(s, sub string) bool {
+	for i := 0; i+len(sub) <= len(s); i++ {
+		if s[i:i+len(sub)] == sub {
+			return true
+		}
+	}
+	return false
+}
+
+// class of a run-time panic message (the wording differs between the tool chains)
+func panicClass(msg string) string {
+	switch {
+	case contains(msg, "index out of range"):
+		return "index"
+	case contains(msg, "slice bounds out of range"):
+		return "bounds"
+	case contains(msg, "nil map"):
+		return "nilmap"
+	case contains(msg, "nil pointer dereference"):
+		return "nilptr"
+	case contains(msg, "makeslice"):
+		return "makeslice"
+	}
+	return "other"
+}
+`
+
+const runner = `
+// run executes one program on the current input and prints how it ended
+func run(f func() int) {
+	defer func() {
+		if r := recover(); r != nil {
+			switch v := r.(type) {
+			case int:
+				println("panic", "v", v)
+			case runtime.Error:
+				println("panic", panicClass(v.Error()))
+			default:
+				println("panic", "other")
+			}
+		}
+	}()
+	println("ret", f())
+}
 `
 
 const yieldFlat = `package main
@@ -149,10 +253,12 @@ func argN() int {
 
 func renderBatch(batch []*progT, flat bool) map[string]string {
 	var b strings.Builder
-	b.WriteString("package main\n\n")
+	b.WriteString("package main\n\nimport \"runtime\"\n\n")
 	for n, pt := range batch {
 		b.WriteString(RenderFuncs(pt.p, n))
+		b.WriteString(RenderReset(pt.p, n))
 	}
+	b.WriteString(runner)
 	b.WriteString("func main() {\n\tmask = uint32(argN())\n")
 	for n, pt := range batch {
 		for ci, cs := range pt.cases {
@@ -160,7 +266,7 @@ func renderBatch(batch []*progT, flat bool) map[string]string {
 			for _, x := range cs.iv {
 				bits = append(bits, map[int]string{0: "false", 1: "true"}[x])
 			}
-			fmt.Fprintf(&b, "\tprintln(\"#\", %d, %d)\n\tinp, ip = []bool{%s}, 0\n\tprintln(\"ret\", p%d_f0())\n", n, ci, strings.Join(bits, ", "), n)
+			fmt.Fprintf(&b, "\tprintln(\"#\", %d, %d)\n\tinp, ip = []bool{%s}, 0\n\tp%d_reset()\n\trun(p%d_f0)\n\truntime.Gosched()\n", n, ci, strings.Join(bits, ", "), n, n)
 		}
 	}
 	b.WriteString("}\n")
@@ -207,19 +313,34 @@ func same(a, b []string) bool {
 func Check(c *core.Ctx, pool *gjs.Pool, cfg Config) {
 	rng := rand.New(rand.NewSource(c.Seed))
 	var progs []*Program
-	if cfg.Families {
-		progs = append(progs, SwitchFamily()...)
-		progs = append(progs, LoopFamily()...)
-		progs = append(progs, CondFamily()...)
-		progs = append(progs, OrderFamily()...)
-	}
 	for i := 0; i < cfg.Random; i++ {
 		progs = append(progs, Random(rng))
+	}
+	if cfg.Families {
+		// (after the random programs of version 1, so that those stay the same per seed)
+		for _, f := range Families(c.Thorough(), rng) {
+			for _, p := range f.Progs {
+				p.Tag = f.Name
+			}
+			progs = append(progs, f.Progs...)
+		}
+	}
+	for i := 0; i < cfg.Random2; i++ {
+		progs = append(progs, Random2(rng))
+	}
+	if only := os.Getenv("VERIF_MINIGO_ONLY"); only != "" { // development aid: one family
+		var keep []*Program
+		for _, p := range progs {
+			if strings.HasPrefix(p.Tag, only) && strings.Contains(p.Desc, os.Getenv("VERIF_MINIGO_DESC")) {
+				keep = append(keep, p)
+			}
+		}
+		progs = keep
 	}
 	var pj []any
 	for _, p := range progs {
 		p.Normalise()
-		pj = append(pj, p.JSON())
+		pj = append(pj, p.TLA())
 	}
 	params, _ := json.Marshal(map[string]any{"ni": ni, "fuel": 40, "out": "pred", "progs": pj})
 	r, err := tlcx.Run(c, tlcx.Opts{Module: "MiniGoScen", Cfg: "SPECIFICATION Spec\nINVARIANT SemOK Emit\nCHECK_DEADLOCK FALSE\n", Workers: 8, Timeout: 30 * time.Minute,
@@ -235,6 +356,7 @@ func Check(c *core.Ctx, pool *gjs.Pool, cfg Config) {
 		pts[i] = &progT{p: p, js: string(b)}
 	}
 	bad := map[int]bool{}
+	unspec := map[int]bool{}
 	files, _ := filepath.Glob(filepath.Join(r.Dir, "pred.*.ndjson"))
 	for _, f := range files {
 		seen := map[string]bool{}
@@ -249,6 +371,9 @@ func Check(c *core.Ctx, pool *gjs.Pool, cfg Config) {
 			}
 			if !pr.OK {
 				bad[pr.P-1] = true
+				if !pr.Indep {
+					unspec[pr.P-1] = true
+				}
 				return nil
 			}
 			used := pr.Used
@@ -279,9 +404,22 @@ func Check(c *core.Ctx, pool *gjs.Pool, cfg Config) {
 		ncases += len(pt.cases)
 		c.Distinct(pt.js)
 	}
+	perFamily := map[string]int{}
+	for _, pt := range list {
+		perFamily[pt.p.Tag]++
+	}
+	c.Set("programs_per_family", perFamily)
 	c.Set("programs", len(list))
 	c.Set("program_input_pairs", ncases)
-	c.Set("programs_discarded_out_of_fuel", len(bad))
+	c.Set("programs_discarded_out_of_fuel", len(bad)-len(unspec))
+	c.Set("programs_discarded_unspecified_behaviour", len(unspec))
+	if os.Getenv("VERIF_VERBOSE") != "" {
+		for i := range pts {
+			if unspec[i] {
+				fmt.Printf("  unspecified behaviour (growth policy / map order): %s %s\n", pts[i].p.Tag, pts[i].p.Desc)
+			}
+		}
+	}
 	// masks
 	maskList := []uint32{0, 0x7fffffff}
 	for len(maskList) < 64 {
@@ -369,11 +507,31 @@ func Check(c *core.Ctx, pool *gjs.Pool, cfg Config) {
 			for i, mk := range masks {
 				jobs[i] = gjs.Job{Args: []string{strconv.Itoa(int(mk))}, MaxSteps: 2000000}
 			}
-			obs, err := gjs.NodeMulti(out, jobs, 10*time.Minute)
+			// (a few jobs per Node process: the runner has one wall-clock budget per call)
+			var obs []gjs.Obs
+			for lo := 0; lo < len(jobs) && err == nil; lo += 3 {
+				hi := lo + 3
+				if hi > len(jobs) {
+					hi = len(jobs)
+				}
+				var part []gjs.Obs
+				part, err = gjs.NodeMulti(out, jobs[lo:hi], 10*time.Minute)
+				obs = append(obs, part...)
+			}
 			if err != nil {
 				c.Infra(err)
 				os.RemoveAll(dir)
 				return
+			}
+			// a wall-clock timeout of the runner on an overloaded machine is not an
+			// observation: run that job again on its own (a genuine endless loop
+			// times out again and is reported)
+			for i := range obs {
+				if obs[i].End == "timeout" {
+					if again, err := gjs.NodeMulti(out, jobs[i:i+1], 10*time.Minute); err == nil && len(again) == 1 {
+						obs[i] = again[0]
+					}
+				}
 			}
 			for i, o := range obs {
 				sec := sections(o.Lines)
@@ -404,7 +562,7 @@ func Check(c *core.Ctx, pool *gjs.Pool, cfg Config) {
 	c.Set("evaluations", ne)
 	c.Set("traces_validated_against_impl", ne)
 	c.Set("spec_guard_discards", nd)
-	c.Set("rule", "programs of the MiniGo fragment: exhaustive switch and loop/jump families plus VERIF_SEED random programs; TLC evaluates MiniGo.tla on every (program, input vector of 4 bits) pair; an evaluation = one (program, distinct consumed input prefix, build mode, yield mask) execution compared with the prediction; distinct_nontrivial = distinct programs")
+	c.Set("rule", "programs of MiniGo (spec/MiniGo.tla, versions 1 and 2): exhaustive families (switch, loop/jump, short-circuit, operand order; range loops, assignment order, slice aliasing, defer, method values, goto, run-time panics; the quick tier samples the slice aliasing chains of length 3) plus VERIF_SEED random programs of both versions; TLC evaluates MiniGo.tla on every (program, consumed input vector of at most 4 bits) pair, exploring the inputs on demand; programs whose outcome depends on append's growth policy, on map iteration order or that run out of fuel are discarded by the specification; an evaluation = one (program, input vector, build mode, yield mask) execution compared with the prediction; distinct_nontrivial = distinct programs")
 	c.Set("checker_cmd", "tlc MiniGoScen (INVARIANT SemOK Emit)")
 	var modes []string
 	for _, m := range cfg.Modes {
@@ -414,14 +572,17 @@ func Check(c *core.Ctx, pool *gjs.Pool, cfg Config) {
 	reported := map[string]bool{}
 	for _, bv := range vs {
 		for _, v := range bv {
-			if reported[v.pt.js+v.mode] {
+			keys := Classify(v.pt.p, v.mode, v.mask, v.pt.cases[v.ci].want)
+			// one report per program, build mode and classification
+			if id := v.pt.js + v.mode + strings.Join(keys, ","); reported[id] {
 				continue
+			} else {
+				reported[id] = true
 			}
-			reported[v.pt.js+v.mode] = true
 			one := &progT{p: v.pt.p, js: v.pt.js, cases: []caseT{v.pt.cases[v.ci]}}
 			files := map[string]string{"program.json": v.pt.js + "\n", "input.json": fmt.Sprint(v.pt.cases[v.ci].iv) + "\n",
 				"predicted.txt": strings.Join(v.pt.cases[v.ci].want, "\n") + "\n", "observed.txt": strings.Join(v.got, "\n") + "\n",
-				"mode.txt": fmt.Sprintf("%s mask=%d\n", v.mode, v.mask)}
+				"mode.txt": fmt.Sprintf("%s mask=%d\n", v.mode, v.mask), "family.txt": v.pt.p.Tag + " " + v.pt.p.Desc + "\n"}
 			flat := false
 			for _, m := range cfg.Modes {
 				if m.Name == v.mode {
@@ -431,7 +592,7 @@ func Check(c *core.Ctx, pool *gjs.Pool, cfg Config) {
 			for n, content := range renderBatch([]*progT{one}, flat) {
 				files["prog/"+n] = content
 			}
-			c.Report(core.Case{Keys: Classify(v.pt.p, v.mode), Summary: fmt.Sprintf("mode %s (yield mask %d), %s program, input %v: compiled program printed %v, MiniGo.tla (and native Go) predict %v", v.mode, v.mask, v.pt.p.Tag, v.pt.cases[v.ci].iv, clip(v.got), clip(v.pt.cases[v.ci].want)), Files: files})
+			c.Report(core.Case{Keys: keys, Summary: fmt.Sprintf("mode %s (yield mask %d), %s program %s, input %v: compiled program printed %v, MiniGo.tla (and native Go) predict %v", v.mode, v.mask, v.pt.p.Tag, v.pt.p.Desc, v.pt.cases[v.ci].iv, clip(v.got), clip(v.pt.cases[v.ci].want)), Files: files})
 		}
 	}
 	for i, pt := range list {
@@ -504,14 +665,19 @@ func (ci *callInfo) blockingExpr(e []any) bool {
 	}
 	if k, ok := e[0].(string); ok {
 		switch k {
-		case "callv":
+		case "callv", "callf":
+			// a call of a function value is always compiled as possibly suspending
 			return true
 		case "tr", "trb":
 			if ci.resumable {
 				return true
 			}
-		case "call":
+		case "call", "callsp":
 			if ci.blocking[e[1].(string)] {
+				return true
+			}
+		case "mcall":
+			if ci.blocking[e[2].(string)] {
 				return true
 			}
 		}
@@ -535,8 +701,12 @@ func (ci *callInfo) directCall(e []any) bool {
 			if !ci.resumable {
 				return true
 			}
-		case "call":
+		case "call", "callsp":
 			if !ci.blocking[e[1].(string)] {
+				return true
+			}
+		case "mcall":
+			if !ci.blocking[e[2].(string)] {
 				return true
 			}
 		}
@@ -563,6 +733,12 @@ func (ci *callInfo) mixedOrder(e []any) bool {
 		// by the compiler (translateArgs preserves the order when a later argument
 		// can suspend), so they are not part of the finding
 		operands = [][]any{e[1].([]any), e[2].([]any)}
+	case "append":
+		// the operands of the built-in append are not kept in order either
+		operands = [][]any{e[1].([]any)}
+		for _, x := range e[2].([]any) {
+			operands = append(operands, x.([]any))
+		}
 	}
 	for i := 0; i < len(operands); i++ {
 		for j := i + 1; j < len(operands); j++ {
@@ -579,13 +755,165 @@ func (ci *callInfo) mixedOrder(e []any) bool {
 	return false
 }
 
-// Classify returns known-finding keys for a failing program in a build mode.
-func Classify(p *Program, mode string) []string {
-	ci := newCallInfo(p, strings.Contains(mode, "resumable"))
-	for _, f := range p.Funcs {
-		if ci.mixedOrder(nodes(f.Body)) {
-			return []string{"direct_call_reordered_after_later_suspending_call"}
+// walk calls f on every node (a tuple whose first element is its kind) of the tree.
+func walk(e []any, f func(n []any)) {
+	if len(e) == 0 {
+		return
+	}
+	if _, ok := e[0].(string); ok {
+		f(e)
+	}
+	for _, x := range e {
+		if sub, ok := x.([]any); ok {
+			walk(sub, f)
 		}
 	}
-	return nil
+}
+
+var callKinds = []string{"tr", "trb", "call", "callsp", "callv", "callf", "mcall"}
+
+func plainTarget(l []any) bool { return l[0] == "var" || l[0] == "blank" }
+
+// tupleLate: a tuple assignment (or an assignment from a call with several results) in
+// which a target with operands (index expression, pointer indirection, field through a
+// pointer) either reads a variable that an EARLIER target of the same statement assigns,
+// or contains a call while the right-hand side contains one too.  The compiler evaluates
+// the operands of such a target when it is assigned (after the right-hand sides and the
+// earlier assignments) instead of first.
+func tupleLate(n []any, addrTaken map[string]bool) bool {
+	lvs := n[1].([]any)
+	rhsCall := n[0] == "assignN" || hasKind(n[2].([]any), callKinds...)
+	for t, x := range lvs {
+		l := x.([]any)
+		if plainTarget(l) {
+			continue
+		}
+		if rhsCall && hasKind(l, callKinds...) {
+			return true
+		}
+		reads := map[string]bool{}
+		walk(l, func(m []any) {
+			if m[0] == "var" {
+				reads[m[1].(string)] = true
+			}
+		})
+		for u := 0; u < t; u++ {
+			e := lvs[u].([]any)
+			if e[0] == "var" && reads[e[1].(string)] {
+				return true
+			}
+			if e[0] == "deref" {
+				// the earlier target *q may be one of the variables read here
+				for x := range reads {
+					if addrTaken[x] {
+						return true
+					}
+				}
+			}
+		}
+	}
+	return false
+}
+
+// rhsFirst: a single assignment to an element / field / indirection (not a map entry)
+// whose left-hand operands contain a call and whose right-hand side contains a call
+// that may suspend: the compiler hoists the right-hand call in front of the statement.
+func (ci *callInfo) rhsFirst(n []any) bool {
+	l := n[1].([]any)
+	if plainTarget(l) || (l[0] == "idx" && l[1] == "map") {
+		return false
+	}
+	return hasKind(l, callKinds...) && ci.blockingExpr(n[2].([]any))
+}
+
+// rteEarly: a single assignment to a slice / array element or a map entry whose
+// right-hand side contains a call, in a program that must end in an index or nil-map
+// panic: the compiler raises the panic before it evaluates the right-hand side.
+func rteEarly(n []any, want []string) bool {
+	l := n[1].([]any)
+	if l[0] != "idx" || len(want) == 0 || !hasKind(n[2].([]any), callKinds...) {
+		return false
+	}
+	last := want[len(want)-1]
+	return last == "panic index" || last == "panic nilmap"
+}
+
+// deferRecvLate: defer recv().m(args) with a call in the receiver expression and a call
+// that may suspend among the arguments: the arguments are evaluated first.
+func (ci *callInfo) deferRecvLate(n []any) bool {
+	ce := n[1].([]any)
+	return ce[0] == "mcall" && hasKind(ce[1].([]any), callKinds...) && ci.blockingExpr(ce[3].([]any))
+}
+
+// deferMaySuspend: the deferred call can reach a trace point.
+func (ci *callInfo) deferMaySuspend(n []any) bool {
+	ce := n[1].([]any)
+	switch ce[0] {
+	case "call", "callsp":
+		return ci.blocking[ce[1].(string)]
+	case "mcall":
+		return ci.blocking[ce[2].(string)]
+	case "callf":
+		if f := ce[1].([]any); f[0] == "funclit" {
+			return ci.blocking[f[1].(string)]
+		}
+		return ci.resumable
+	case "callv":
+		return ci.resumable
+	}
+	return false
+}
+
+// Classify returns known-finding keys for a failing program in a build mode under a
+// yield mask; want is the predicted observation.
+func Classify(p *Program, mode string, mask uint32, want []string) []string {
+	ci := newCallInfo(p, strings.Contains(mode, "resumable"))
+	var keys []string
+	add := func(k string) {
+		for _, x := range keys {
+			if x == k {
+				return
+			}
+		}
+		keys = append(keys, k)
+	}
+	addrTaken := map[string]bool{}
+	for _, f := range p.Funcs {
+		walk(nodes(f.Body), func(n []any) {
+			if n[0] == "addr" {
+				addrTaken[n[1].([]any)[1].(string)] = true
+			}
+		})
+	}
+	panics := len(want) > 0 && strings.HasPrefix(want[len(want)-1], "panic")
+	for _, f := range p.Funcs {
+		walk(nodes(f.Body), func(n []any) {
+			switch n[0] {
+			case "massign", "assignN":
+				if tupleLate(n, addrTaken) {
+					add("tuple_assign_lhs_operands_evaluated_late")
+				}
+			case "set":
+				if ci.rhsFirst(n) {
+					add("assign_rhs_calls_before_lhs_operand_calls")
+				}
+				if rteEarly(n, want) {
+					add("rte_raised_before_rhs_evaluated")
+				}
+			case "defer":
+				if ci.deferRecvLate(n) {
+					add("deferred_method_receiver_evaluated_after_args")
+				}
+				if panics && ci.resumable && mask != 0 && ci.deferMaySuspend(n) {
+					add("suspension_in_deferred_call_during_panic")
+				}
+			}
+		})
+	}
+	for _, f := range p.Funcs {
+		if ci.mixedOrder(nodes(f.Body)) {
+			add("direct_call_reordered_after_later_suspending_call")
+		}
+	}
+	return keys
 }
